@@ -115,9 +115,17 @@ func (s *Store) persist(higher Snapshot, persistOptions StorePersistOptions) (
 		return nil, fmt.Errorf("store: can only persist segmentStack")
 	}
 
-	// If higher segment has no data, we're still clean, so just snapshot.
+	// If higher segment has no data, we're still clean, so just snapshot,
+	// unless child collections were deleted or created meanwhile: such
+	// a batch leaves no data behind, but the set of child collections
+	// recorded in the footer has to follow it.
 	if ss.isEmpty() {
-		return s.Snapshot()
+		s.m.Lock()
+		sameChildren := s.footer.sameChildCollections(ss)
+		s.m.Unlock()
+		if sameChildren {
+			return s.Snapshot()
+		}
 	}
 
 	fref, file, err := s.startOrReuseFile()
